@@ -134,3 +134,138 @@ pub fn run(forest: &[B], ops: &dyn Fn(u8) -> Op, x0: i32, budget: usize, max_pri
 	}
 	Some((out, x))
 }
+
+// ---------------------------------------------------------------------------------------------
+// Array loops (C01 family 8): an i32 variable `x`, a usize index `i` and an array `a` of three
+// i32 elements. An access with `i >= 3` is undefined behaviour: such bodies are excluded (None).
+
+#[derive(Debug, Clone, Copy, PartialEq, Eq)]
+pub enum AOp
+{
+	/// `i = i + 1;`
+	IncI,
+	/// `a[i] = x;`
+	Store,
+	/// `x = x + a[i];`
+	AddElem,
+	/// `x = x * 2;`
+	Dbl,
+	/// `if i == |a| goto L;`
+	IfAtEndGoto(usize),
+	Goto(usize),
+	Label(usize),
+	Loop,
+	/// `if a[i] > 15 { x = x + 1; } else { a[i] = a[i] + x; }`
+	Compound,
+	Print,
+}
+
+#[derive(Debug)]
+enum AIns
+{
+	Op(AOp, Vec<usize>),
+	Label(usize, usize),
+	Jump(usize),
+	Nop,
+}
+
+fn flatten_array(forest: &[B], ops: &dyn Fn(u8) -> AOp, code: &mut Vec<AIns>, chain: &mut Vec<usize>, next_block: &mut usize)
+{
+	let me = *next_block;
+	*next_block += 1;
+	chain.push(me);
+	let start = code.len();
+	code.push(AIns::Nop);
+	for s in forest
+	{
+		match s
+		{
+			B::Atom(a) => code.push(match ops(*a)
+			{
+				AOp::Label(l) => AIns::Label(l, me),
+				AOp::Loop => AIns::Jump(start),
+				op => AIns::Op(op, chain.clone()),
+			}),
+			B::Block(inner) => flatten_array(inner, ops, code, chain, next_block),
+		}
+	}
+	chain.pop();
+}
+
+pub struct ArrayRun
+{
+	pub prints: Vec<i32>,
+	pub x: i32,
+	pub i: usize,
+	pub a: [i32; 3],
+}
+
+pub fn run_array(forest: &[B], ops: &dyn Fn(u8) -> AOp, a0: [i32; 3], budget: usize, max_prints: usize) -> Option<ArrayRun>
+{
+	let mut code = Vec::new();
+	let mut nb = 0;
+	flatten_array(forest, ops, &mut code, &mut Vec::new(), &mut nb);
+	let target = |from: usize, label: usize, chain: &Vec<usize>| -> Option<usize> {
+		code.iter().enumerate().filter(|(k, ins)| *k > from && matches!(ins, AIns::Label(l, b) if *l == label && chain.contains(b))).map(|(k, _)| k).min()
+	};
+	let mut r = ArrayRun { prints: Vec::new(), x: 1, i: 0, a: a0 };
+	let mut pc = 0;
+	let mut steps = 0;
+	while pc < code.len()
+	{
+		steps += 1;
+		if steps > budget || r.prints.len() > max_prints
+		{
+			return None;
+		}
+		match &code[pc]
+		{
+			AIns::Op(op, chain) => match op
+			{
+				AOp::IncI => r.i += 1,
+				AOp::Store =>
+				{
+					*r.a.get_mut(r.i)? = r.x;
+				}
+				AOp::AddElem => r.x = r.x.wrapping_add(*r.a.get(r.i)?),
+				AOp::Dbl => r.x = r.x.wrapping_mul(2),
+				AOp::IfAtEndGoto(l) =>
+				{
+					if r.i == 3
+					{
+						pc = target(pc, *l, chain)?;
+						continue;
+					}
+				}
+				AOp::Goto(l) =>
+				{
+					pc = target(pc, *l, chain)?;
+					continue;
+				}
+				AOp::Compound =>
+				{
+					let e = *r.a.get(r.i)?;
+					if e > 15
+					{
+						r.x = r.x.wrapping_add(1);
+					}
+					else
+					{
+						r.a[r.i] = e.wrapping_add(r.x);
+					}
+				}
+				AOp::Print => r.prints.push(r.x),
+				AOp::Label(_) | AOp::Loop => unreachable!(),
+			},
+			AIns::Jump(t) =>
+			{
+				pc = *t;
+				continue;
+			}
+			AIns::Label(..) | AIns::Nop =>
+			{}
+		}
+		pc += 1;
+	}
+	Some(r)
+}
